@@ -1,6 +1,7 @@
 import RV.C04.Model
 import RV.C04.Spec
 import RV.C04.Safe
+import RV.C04.Analysis
 import RV.Base.Proto
 /-
   C04 driver.  One request per line, one answer per line.
@@ -296,8 +297,19 @@ def step (D : Dataset) : List String → Dataset × String
     | _, _ => (D, "bad-op")
   | "safe" :: rest =>
     match (parseSX (tokenize (" ".intercalate rest))).bind query? with
-    | some q => (D, s!"safe={if q.safe then 1 else 0} frag={if q.inFragment then 1 else 0}")
+    | some q =>
+      (D, s!"safe={if q.safe then 1 else 0} frag={if q.inFragment then 1 else 0} top={if q.safeTop then 1 else 0}")
     | none => (D, "bad-op")
+  -- round g: the analysis passes of translateQuery (`analyse`, `_addVars`) recomputed by the Lean model on rdflib's
+  -- tree (incoming annotations ignored), printed as text; and the model run on the tree so re-annotated
+  | "annot" :: rest =>
+    match (parseSX (tokenize (" ".intercalate rest))).bind query? with
+    | some q => (D, "annot " ++ " ".intercalate q.pattern.annotate.annots)
+    | none => (D, "bad-op")
+  | "amodel" :: nn :: rest =>
+    match nn.toNat?, (parseSX (tokenize (" ".intercalate rest))).bind query? with
+    | some n, some q => (D, showResult (Model.evalQuery (n := n) (fun k => Term.fresh k 0) D q.annotate))
+    | _, _ => (D, "bad-op")
   | "tr" :: rest =>
     match (parseSX (tokenize (" ".intercalate rest))).bind squery? with
     | some _ => (D, "ok")
